@@ -391,3 +391,73 @@ def rule_managers_isolated_worlds(ctx: Ctx, out: Collector) -> None:
                     'managers after it miss the event, and the emitting code takes its error path, so a well-behaved manager sees zero or '
                     'two on_pipeline_complete events (neither carrying the object run returns) or a duplicated on_node_complete ('
                     + '; '.join(problems[:2]) + ')', props={'C14'})
+
+
+def rule_chart_runs_share_nothing(ctx: Ctx, out: Collector) -> None:
+    """SH-13: two runs of ONE chart that pass neither meta nor input_kwargs get contexts whose mutable parts (meta, input_kwargs)
+    are new objects per run and are not objects of the chart: what a run's callbacks write into its context must not reach the
+    chart or the next run.  Decided by constructing the chart (full dataclass protocol, so every defaulted field exists) and
+    interpreting PipelineChart.run twice on it; the context handed to the entrypoint is inspected."""
+    p = ctx.p
+    unit = p.func(CHART_RUN)
+    chart_cls = unit.cls
+    if chart_cls is None:
+        raise AnalysisError('PipelineChart.run is not a method (SH-13 anchor vanished)')
+    gi = [u for u in p.functions.values() if u.parent is None and u.cls is None and u.name == 'get_instance']
+    base = f'{unit.module.name}::{unit.qualname}::two runs of one chart share no mutable context part'
+    where = p.loc(unit, unit.node)
+    problems: List[str] = []
+    seen = {'worlds': 0, 'contexts': 0}
+
+    def reachable(v, acc, depth=0):
+        if depth > 4:
+            return
+        if isinstance(v, (dict, list, set)):
+            acc[id(v)] = v
+            for x in (v.values() if isinstance(v, dict) else v):
+                reachable(x, acc, depth + 1)
+        elif isinstance(v, AObj):
+            for x in v.attrs.values():
+                reachable(x, acc, depth + 1)
+
+    def run(oracle: Oracle):
+        ctxs: list = []
+
+        def entry_run(a, k):
+            ctxs.append(a[0] if a else k.get('ctx'))
+            return AObj(('ext', 'Value'), {}, tag='entrypoint-value')
+        store = AObj(('ext', 'ArtifactStore'), {}, tag='artifact-store')
+        interp = Interp(p, oracle, stubs={u.fid: (lambda i_, a, k, s_: store) for u in gi}, ext_stubs={'world.entry_run': entry_run})
+        interp.eager_dataclasses = True
+        entry = AObj(('ext', 'Entrypoint'), {'run': AExt('world.entry_run')}, tag='entrypoint')
+        chart = interp.construct(AClass(chart_cls), [], {'model_name': 'model', 'entrypoint': entry})
+        for _ in range(2):
+            interp.call_unit(unit, [], {'pipeline_id': 'pid'}, chart)
+        return chart, ctxs
+
+    for kind, payload, *_rest in enumerate_outcomes(run):
+        seen['worlds'] += 1
+        if kind != 'value':
+            problems.append(f'run raised {payload}')
+            continue
+        chart, ctxs = payload
+        if len(ctxs) != 2 or not all(isinstance(c, AObj) for c in ctxs):
+            raise AnalysisError('the entrypoint did not receive one context per run (SH-13 world)')
+        seen['contexts'] += 2
+        of_chart: Dict[int, Any] = {}
+        reachable(chart, of_chart)
+        for fname in sorted(set(ctxs[0].attrs) & set(ctxs[1].attrs)):
+            a, b = ctxs[0].attrs[fname], ctxs[1].attrs[fname]
+            if not isinstance(a, (dict, list, set)):
+                continue
+            if a is b:
+                problems.append(f'context.{fname} of the second run is the very object of the first run')
+            if id(a) in of_chart:
+                problems.append(f'context.{fname} is an object kept by the chart (a write of the run mutates the chart)')
+    if not seen['contexts'] and not problems:
+        raise AnalysisError('no context observed (SH-13 world)')
+    if problems:
+        out.bad('SH-13', base, where, 'runs of one chart are not independent: ' + '; '.join(sorted(set(problems))[:3]), table=seen)
+    else:
+        out.ok('SH-13', base, where, f'{seen["worlds"]} world(s), {seen["contexts"]} contexts: meta / input_kwargs are new objects per run '
+               'and none of them is kept by the chart', table=seen)
